@@ -1,6 +1,7 @@
 """C06 - subjects deliver each item once, in order, to exactly the current subscribers."""
 import itertools
 from common import *
+import ileave
 
 VARIANTS = ["local", "threads", "mr_item", "mr_err", "mr_both"]
 OPS = ["sub", "(unsub 0)", "(unsub 1)", "(unsub 2)", "(next 1)", "(next 2)", "(next_sub_inside 3 0)", "(next_sub_inside 4 1)",
@@ -66,12 +67,12 @@ def run(tier, seed, replay=None):
     proof_stage(rep, "C06")
     if not build_stage(rep):
         return rep.finish()
-    cases = load_replay_case(replay) if replay else make_cases(tier, rng)
+    cases = load_replay_case(replay) if replay else make_cases(tier, rng) + ileave.cases("subject", tier, rng, "is")
     correspond(rep, "C06", cases, "C06_subject_refines")
     c = rep.coverage
     hist = {}
     for _, _, t in cases:
-        key = "%s/%s" % (t.get("variant"), t.get("class"))
+        key = "%s/%s" % (t.get("variant"), t.get("class")) if "variant" in t else "interleavings/%d threads" % t.get("threads", 0)
         hist[key] = hist.get(key, 0) + 1
     c["generator_distribution"] = hist
     c["exhaustive"] = True
@@ -80,7 +81,7 @@ def run(tier, seed, replay=None):
                  "is_finished, subscriber.is_closed x3) each followed by a fixed observation tail, over Subject, SubjectThreads and the "
                  "three MutRef subjects; len/is_empty histories; random histories of 6-12 operations; observation = every delivery "
                  "(subscriber, notification) in global order plus every API return value; non-trivial = non-empty observation"
-                 % (4 if tier == "quick" else 5))
+                 % (4 if tier == "quick" else 5)) + "; and " + ileave.RULE
     rep.assumptions = ["len()/is_empty() while the subject is open are compared with the model only (the property specifies them after a terminal)",
-                       "single-threaded histories; the lock-level interleavings of SubjectThreads are the subject of C10"]
+                       "the lock-level interleavings of SubjectThreads are explored by schedules with a bounded number of context switches (and random ones), not all of them; the statement for all schedules is the theorem set C06_threads_* over the lock-level model"]
     return rep.finish()
